@@ -631,6 +631,18 @@ func c16ConnReq() func() {
 			}
 		}
 		cfg := TCfg(100, 300, 100000)
+		// the timing part of the configuration must not matter for the advertised endpoint: all
+		// set, all left to the defaults (zero), negative, or only one of them set
+		switch mc.Choose(5, mc.Free) {
+		case 1:
+			cfg = knx.TunnelConfig{}
+		case 2:
+			cfg = TCfg(-1, -1, -1)
+		case 3:
+			cfg = TCfg(0, 300, 0)
+		case 4:
+			cfg = knx.DefaultTunnelConfig
+		}
 		cfg.SendLocalAddress = sendLocal
 		cfg.UseTCP = tcp
 		t, err := knx.NewTunnel("192.0.2.99:3671", knxnet.TunnelLayerData, cfg)
